@@ -26,6 +26,7 @@ SMOKE = [
     ('AddMod', 'MC_AddMod_prefix.cfg', ('InBounds', 'TextIsSlice')),
     ('AddMod', 'MC_AddMod_adjacent.cfg', 'OnlyAdjacent'),
     ('DigitalValue', 'MC_DigitalValue_prefix.cfg', 'MeetsLiteral'),
+    ('ModPushPop', 'MC_ModPushPop_noreset.cfg', 'Restored'),
     ('RelPeriodMech', 'MC_RelPeriod_weekend.cfg', 'WeekendIsoYear'),
 ]
 
